@@ -212,6 +212,19 @@ class ListGen:
                 self.loop_extra += [f"{act} = {fn}({a}, {b}, count % 2)", f"{act}.append(900 + count)", f"mon.write({a}[0])", f"mon.write({act}[-1])",
                                     f"{act}.remove(900 + count)"]
                 self.features.add("helper-returns-list-parameter")
+        if r.random() < 0.5:
+            # a list switched on every pass between a full and an EMPTY source whose lengths are only known at run time
+            # (whatever the target held before each assignment has to be released: no growth from pass to pass)
+            k = self.fresh("sw")
+            i = self.L.index("from Reduino.Utils import sleep")
+            if "from Reduino.Core import analog_read" not in self.L:
+                self.L.insert(i, "from Reduino.Core import analog_read")
+            self.L += [f"n{k} = analog_read(0) % 3 + {r.choice([1, 2, 3])}", f"full{k} = [q + {r.randint(1, 9)} for q in range(n{k})]", f"none{k} = [q for q in range(n{k} - n{k})]",
+                       f"{k} = [q for q in range(n{k})]", f"mon.write(len({k}))"]
+            order = r.choice([("full", "none"), ("none", "full"), ("none", "none"), ("full", "full")])
+            for which in order:
+                self.loop_extra += [f"{k} = {which}{k}", f"mon.write(len({k}))"] + ([f"mon.write({k}[0])"] if which == "full" else [])
+            self.features.add("switch-assign-empty-and-full")
         if "list-alias" in self.hz:
             src = r.choice(names)
             al = self.fresh("alias")
